@@ -265,8 +265,15 @@ def has_lumi(chs):
     return any(m['type'] == 'lumi' for c in chs for s in c['samples'] for m in s['modifiers'])
 
 
+POILESS = ''          # workspace.json: "poi" is any string; the empty string declares a measurement without a parameter of interest
+
+
 def gen_measurement(rng, name, chs, poi=None):
+    """poi=None: drawn here (a normfactor of the channels, 'mu', or with probability 0.12 POI-less)"""
     nfs = sorted({m['name'] for c in chs for s in c['samples'] for m in s['modifiers'] if m['type'] == 'normfactor'})
+    if poi is None:
+        r = rng.random()
+        poi = POILESS if r < 0.12 else (rng.choice(nfs) if nfs and r < 0.40 else 'mu')
     params = []
     for nf in nfs:
         if rng.random() < 0.35:
@@ -282,7 +289,7 @@ def gen_measurement(rng, name, chs, poi=None):
         params.append({'name': 'unused_%d' % rng.randrange(3), 'inits': [1.0]})
     params.append(copy.deepcopy(LUMI_CFG))        # always present and identical, so that any measurement configures lumi
     rng.shuffle(params)
-    return {'name': name, 'config': {'poi': poi or (rng.choice(nfs) if nfs and rng.random() < 0.3 else 'mu'), 'parameters': params}}
+    return {'name': name, 'config': {'poi': poi, 'parameters': params}}
 
 
 def gen_ws(rng, chnames, mnames, tag='', version='1.0.0'):
@@ -317,7 +324,9 @@ def gen_pair(rng):
     nl, nr = rng.choice([1, 1, 2, 2, 3]), rng.choice([1, 1, 2])
     names = rng.sample(CH_POOL, nl + nr)
     chan_mode = rng.choice(['disjoint', 'disjoint', 'identical', 'conflict', 'mixed'])
-    meas_mode = rng.choice(['disjoint', 'identical', 'compatible', 'conflict-param', 'conflict-poi', 'disjoint'])
+    # same-name measurements: identical / same POI / different POI / POI against POI-less / both POI-less (each x all four joins)
+    meas_mode = rng.choice(['disjoint', 'identical', 'compatible', 'conflict-param', 'conflict-poi', 'disjoint',
+                            'conflict-poiless', 'both-poiless'])
     ver_mode = 'same' if rng.random() < 0.9 else 'different'
     if rng.random() < 0.3:          # fully disjoint pairs: the case the likelihood statements are about
         chan_mode, meas_mode, ver_mode = 'disjoint', 'disjoint', 'same'
@@ -362,6 +371,18 @@ def gen_pair(rng):
             mr['config']['poi'] = 'mu_other' if ml['config']['poi'] == 'mu' else 'mu'
             if rng.random() < 0.5:
                 mr['config']['parameters'] = copy.deepcopy(ml['config']['parameters'])
+        elif meas_mode == 'conflict-poiless':
+            # one of the two declares no POI, the other one does: their definitions clash like any two different POIs
+            if ml['config']['poi'] == POILESS:
+                ml['config']['poi'] = 'mu'
+            mr['config']['poi'] = ml['config']['poi']
+            rng.choice([ml, mr])['config']['poi'] = POILESS
+            if rng.random() < 0.6:      # the POI is the only difference
+                mr['config']['parameters'] = copy.deepcopy(ml['config']['parameters'])
+        elif meas_mode == 'both-poiless':
+            ml['config']['poi'] = mr['config']['poi'] = POILESS
+            lnames = {p['name']: p for p in ml['config']['parameters']}
+            mr['config']['parameters'] = [copy.deepcopy(lnames[p['name']]) if p['name'] in lnames else p for p in mr['config']['parameters']]
     if ver_mode == 'different':
         right['version'] = rng.choice(['1.0.1', '2.0.0', '1.0'])
         if rng.random() < 0.3:
